@@ -389,7 +389,27 @@ def _run_case(ctx, case):
         return _run_multi_env(ctx, case)
     rng = random.Random(case["seed"])
     if case["kind"] == "history":
-        run = Run(case["instance"], case.get("filter"))
+        if case["seed"] % 8 == 5:
+            # the user's own dispatcher class: its overrides look at the (cached) queries for
+            # logging / auditing and then defer to the library
+            from job_shop_lib.dispatching import Dispatcher
+
+            class AuditingDispatcher(Dispatcher):
+                def is_operation_ready(self, operation):
+                    self.available_operations(); self.current_time(); self.ongoing_operations()
+                    self.completed_operations(); self.unscheduled_operations()
+                    return super().is_operation_ready(operation)
+
+                def start_time(self, operation, machine_id):
+                    self.raw_ready_operations()
+                    return super().start_time(operation, machine_id)
+            instance0 = gen.build(case["instance"])
+            run = Run(case["instance"], case.get("filter"), instance=instance0,
+                      dispatcher=AuditingDispatcher(instance0,
+                                                    ready_operations_filter=gen.make_filter(case.get("filter"))))
+            ctx.count("histories_on_a_user_subclass_of_the_dispatcher")
+        else:
+            run = Run(case["instance"], case.get("filter"))
         mirror_after = case.get("mirror_after", 0)
         probe = None
         if case["seed"] % 4 == 1:
